@@ -20,7 +20,7 @@ Extraction "model.ml"
   extended_to_float is_denormal float_exponent float_mantissa from_bits f_from_u64 f_mul f_div f_neg
   (* vectors and big integers *)
   vnew try_push vpop try_extend try_from try_resize vclone vset_list
-  vcompare normalize_list is_normalized scalar_add scalar_mul small_add small_add_from small_mul
+  vcompare normalize_list is_normalized scalar_add scalar_mul small_add small_add_from small_mul small_add_failed small_mul_failed
   large_add large_add_from long_mul large_mul pow5 bigint_pow shl shl_bits shl_limbs
   leading_zeros bit_length hi64 nonzero u64_to_hi64_1 u64_to_hi64_2 from_u64
   (* front end *)
